@@ -5,9 +5,10 @@ from proto import op_line
 HERE = os.path.dirname(os.path.abspath(__file__))
 LEAN = os.path.join(os.path.dirname(HERE), "lean")
 DRIVER = os.path.join(LEAN, ".lake", "build", "bin", "wormhole-driver")
+REG_DRIVER = os.path.join(LEAN, ".lake", "build", "bin", "wormhole-reg-driver")
 
 
-def run_model(history, dumps="end"):
+def run_model(history, dumps="end", driver=None):
     """-> (list of (op, events|None, dump|None), final_dump); same shape as impl.run_history"""
     lines = []
     expect = []   # per history op: what output block(s) follow
@@ -24,7 +25,7 @@ def run_model(history, dumps="end"):
             else:
                 expect.append(("ev",))
     lines.append("dump")
-    p = subprocess.run([DRIVER], input=("\n".join(lines) + "\n").encode(), stdout=subprocess.PIPE,
+    p = subprocess.run([driver or DRIVER], input=("\n".join(lines) + "\n").encode(), stdout=subprocess.PIPE,
                        stderr=subprocess.PIPE, timeout=600)
     if p.returncode != 0:
         raise RuntimeError("model driver failed: %s" % p.stderr.decode()[:500])
